@@ -47,6 +47,9 @@ type RaftGroup struct {
 	raftLeaderId  uint64
 	wal           wal.WAL
 	log           *log.Entry
+
+	started bool
+	done    chan struct{}
 }
 
 func startRaftNode(id uint64, nodeIds []uint64, storage wal.WAL, logger *log.Entry) (etcdRaft.Node, error) {
@@ -95,6 +98,7 @@ func NewRaftGroup(id uuid.UUID, nodeIds []uint64, storage wal.WAL, transport *Ra
 		raft:              raftNode,
 		wal:               storage,
 		log:               logger,
+		done:              make(chan struct{}),
 	}
 
 	if err := transport.addGroup(g); err != nil {
@@ -114,6 +118,7 @@ func (this *RaftGroup) Start() error {
 			return err
 		}
 	}
+	this.started = true
 	go this.run()
 	return nil
 }
@@ -121,6 +126,10 @@ func (this *RaftGroup) Start() error {
 func (this *RaftGroup) Stop() {
 	this.raft.Stop()
 	this.ctxCancel()
+	if this.started {
+		// Wait for the ready loop so that it does not touch the WAL anymore
+		<-this.done
+	}
 
 	if err := this.transport.removeGroup(this.id); err != nil {
 		this.log.Error(err)
@@ -177,6 +186,8 @@ func (this *RaftGroup) ProposeLeave(nodeId uint64) error {
 }
 
 func (this *RaftGroup) run() {
+	defer close(this.done)
+
 	ticker := time.NewTicker(100 * time.Millisecond)
 	defer ticker.Stop()
 
